@@ -136,6 +136,7 @@ def run_tlc(module, cfg=None, env=None, workers=1, timeout=3600, simulate=None, 
 def tlc_error_excerpt(res, n=25):
     lines = res["stdout"].splitlines()
     idx = [i for i, l in enumerate(lines) if "Error" in l or "violated" in l or "Overflow" in l]
+    lines = [l[:300] for l in lines]
     if not idx:
         return "\n".join(lines[-n:])
     return "\n".join(lines[idx[0]: idx[0] + n])
